@@ -397,15 +397,15 @@ pub fn hyrax(cfg: &Cfg, which: usize) -> Verdict {
     let pr = &proof[0];
     let rows = &w.comms[0].commitment().row_coms;
     let mut b = vec![];
-    vk.serialize_compressed(&mut b).unwrap();
+    vk.serialize_uncompressed(&mut b).unwrap();
     sp_r.absorb(&b);
     let mut b = vec![];
-    rows.serialize_compressed(&mut b).unwrap();
+    rows.serialize_uncompressed(&mut b).unwrap();
     sp_r.absorb(&b);
     sp_r.absorb(&pt);
     for g in [pr.com_eval, pr.com_d, pr.com_b] {
         let mut b = vec![];
-        g.serialize_compressed(&mut b).unwrap();
+        g.serialize_uncompressed(&mut b).unwrap();
         sp_r.absorb(&b);
     }
     let c: SF = sp_r.squeeze_field_elements(1)[0];
